@@ -256,15 +256,22 @@ def run_scene(c):
     R, C = lons.shape
     persist = bool(c.get("persist", False))
 
-    def run_dask(lo, la, dd, persist=persist):
+    # rows_per_scan as the caller gives it: geolocation attrs['rows_per_scan'] (or none) and the keyword (a number, 0 = whole
+    # swath, or absent); `rps` above is the scan size these mean and is what the one-shot path gets
+    attr_rps, rps_kw = c.get("attr_rps"), c.get("rps_kw", rps)
+
+    def run_dask(lo, la, dd, persist=persist, attr=attr_rps, kwrps=rps_kw):
         try:
-            sw = SwathDefinition(xr.DataArray(da.from_array(lo, chunks=(in_rows, C)), dims=("y", "x")),
-                                 xr.DataArray(da.from_array(la, chunks=(in_rows, C)), dims=("y", "x")))
+            attrs = {} if attr is None else {"rows_per_scan": int(attr)}
+            sw = SwathDefinition(xr.DataArray(da.from_array(lo, chunks=(in_rows, C)), dims=("y", "x"), attrs=dict(attrs)),
+                                 xr.DataArray(da.from_array(la, chunks=(in_rows, C)), dims=("y", "x"), attrs=dict(attrs)))
             rs = dask_ewa.DaskEWAResampler(sw, area)
             kws = dict(kw)
             if explicit_fill:
                 kws["fill_value"] = fill
-            out = rs.resample(da.from_array(dd, chunks=(in_rows, C)), rows_per_scan=rps, chunks=out_chunks,
+            if kwrps is not None:
+                kws["rows_per_scan"] = int(kwrps)
+            out = rs.resample(da.from_array(dd, chunks=(in_rows, C)), chunks=out_chunks,
                               maximum_weight_mode=mwm, persist=persist, **kws)
             return {"out": hexflat(out.compute()), "dtype": str(out.dtype), "chunks": [list(a) for a in out.chunks],
                     "in_chunks": list(rs.cache["ll2cr_result"].chunks[-2]) if hasattr(rs.cache["ll2cr_result"], "chunks") else None,
@@ -277,6 +284,27 @@ def run_scene(c):
         res["dask_c"] = run_dask(lons.copy(), lats.copy(), d.copy())
     if persist:
         res["dask_nopersist"] = run_dask(lons.copy(), lats.copy(), d.copy(), persist=False)
+    if attr_rps is not None or rps_kw != rps:
+        # the same request spelled plainly: no attrs, the scan size as keyword
+        res["dask_plain_rps"] = run_dask(lons.copy(), lats.copy(), d.copy(), attr=None, kwrps=rps)
+    # _get_rows_per_scan itself, for combinations of keyword and attrs
+    obs = []
+    for attr in (None, 0, 2, rps, R):
+        for kwv in (None, 0, 3, rps):
+            attrs = {} if attr is None else {"rows_per_scan": int(attr)}
+            try:
+                sw = SwathDefinition(xr.DataArray(da.from_array(lons.copy(), chunks=(in_rows, C)), dims=("y", "x"), attrs=dict(attrs)),
+                                     xr.DataArray(da.from_array(lats.copy(), chunks=(in_rows, C)), dims=("y", "x"), attrs=dict(attrs)))
+                v = dask_ewa.DaskEWAResampler(sw, area)._get_rows_per_scan(kwv)
+                obs.append([kwv, attr, R, int(v)])
+            except ValueError:
+                obs.append([kwv, attr, R, None])
+            except Exception as e:
+                obs.append([kwv, attr, R, type(e).__name__])
+    res["get_rps"] = obs
+    # no scan size anywhere: nothing to resample with -> a loud error is the only right answer
+    probe = run_dask(lons.copy(), lats.copy(), d.copy(), attr=None, kwrps=None)
+    res["dask_no_rps"] = {"error": probe["error"]} if "error" in probe else {"returned_grid": True}
     # a history of resample() calls on ONE resampler object, each compared with a fresh object by the harness
     if c.get("history"):
         hist = []
